@@ -294,6 +294,12 @@ func (w *worker) runCase(line int, raw []byte) {
 				switch {
 				case got.Panic != "":
 					fail = "panic:" + got.Panic
+				case w.kind == "vm-seq":
+					// C12 as a VERDICT: for a flat path the model's delivery sequence is, by the TLC invariants
+					// VMRefines and VMOrdered, the denotation in document order; the engine must deliver exactly it
+					if c.Tag == "flat" && !reflect.DeepEqual(append([]int{}, want.Nodes...), append([]int{}, got.IDs...)) {
+						fail = "seq-order"
+					}
 				case !reflect.DeepEqual(append([]int{}, want.Nodes...), append([]int{}, got.IDs...)):
 					fail = "vm-nodes"
 				default:
